@@ -49,12 +49,12 @@ GInit == /\ \E n \in InitSizes, root \in Roots :
               /\ init = [size |-> n, root |-> root]
          /\ hist = <<>>
 
-Pub(alts) == {[devs |-> a.devs, r |-> a.r, wild |-> a.wild, p |-> a.p] : a \in alts}
+Pub(alts) == {[devs |-> a.devs, r |-> a.r, wild |-> a.wild, p |-> a.p, xp |-> a.xp] : a \in alts}
 
 Step(call, i, X(_, _)) ==
-    LET t  == Track(Devs, {}, d, X)
+    LET t  == Track(Devs \cap Rel(call.op, d), {}, d, X)
         \* (same state and no unrepaired deviation triggered: the follow track coincides, skip the work)
-        t2 == IF d2 = d /\ t.trig \cap Follow = {} THEN t ELSE Track(Devs, Follow, d2, X)
+        t2 == IF d2 = d /\ t.trig \cap Follow = {} THEN t ELSE Track(Devs \cap (Follow \cup Rel(call.op, d2)), Follow, d2, X)
     IN /\ f' = i.f
        /\ d' = t.prim.st
        /\ d2' = t2.prim.st
@@ -62,11 +62,11 @@ Step(call, i, X(_, _)) ==
        /\ hist' = Append(hist, call @@
                    [r    |-> i.r,
                     p    |-> IProbes(i.f),
-                    xp   |-> (~t.prim.wild /\ (t.prim.st.xp \/ t.prim.p.xp)),
+                    xp   |-> XP(t.prim),
                     alts |-> Pub(t.alts),
                     amb  |-> t.amb,
                     fo   |-> IF Follow = {} THEN [on |-> FALSE]
-                             ELSE [on |-> TRUE, r |-> t2.prim.r, wild |-> t2.prim.wild, p |-> t2.prim.p,
+                             ELSE [on |-> TRUE, r |-> t2.prim.r, wild |-> t2.prim.wild, p |-> t2.prim.p, xp |-> XP(t2.prim),
                                    alts |-> Pub(t2.alts), amb |-> t2.amb, devs |-> Follow]])
 
 Call(op, b, o, w, k) == [op |-> op, b |-> b, o |-> o, w |-> w, k |-> k]
